@@ -85,7 +85,8 @@ def _requests(ttb, o, rs):
     for opn, op in (("add", lambda x, y: x + y), ("sub", lambda x, y: x - y)):
         A(f"tenmat.{opn}(all-modes-in-rows vs all-in-columns)", "T", lambda op=op: op(T.to_tenmat(rdims=allm), T.to_tenmat(cdims=allm)))
         A(f"tenmat.{opn}(order-1: column vs row)", "T", lambda op=op: op(V1.to_tenmat(rdims=np.array([0])), V1.to_tenmat(cdims=np.array([0]))))
-        A(f"tenmat.{opn}(different-splits)", "T", lambda op=op: op(T.to_tenmat(rdims=np.array([0])), T.to_tenmat(rdims=np.array([1]))))
+        if shp[0] != shp[1]:     # (with equal sizes the two matrix shapes coincide and the sum is well-formed)
+            A(f"tenmat.{opn}(different-splits)", "T", lambda op=op: op(T.to_tenmat(rdims=np.array([0])), T.to_tenmat(rdims=np.array([1]))))
         A(f"tenmat.{opn}(singleton-mode-on-opposite-sides)", "T", lambda op=op: op(ttb.tensor(np.ones((1, 3))).to_tenmat(rdims=np.array([0])), ttb.tensor(np.ones((1, 3))).to_tenmat(rdims=np.array([1]))))
     A("T.to_tenmat(no-dims)", "T", lambda: T.to_tenmat())
     A("T.to_tenmat(repeated-mode)", "T", lambda: T.to_tenmat(np.array([0, 0]), np.array([1, 2])))
